@@ -102,6 +102,17 @@ def oracle(case, res):
             bad.append(({**sig0, "kind": "warning-on-failure"}, f"warning emitted although nothing was converted: {warns}"))
         return bad
     odir = out.rsplit("/", 1)[0] or "/"
+    if out == inp:
+        # "writes the archive at the output" and "leaves the input unchanged" cannot both hold: the only behaviour that
+        # respects the property is to refuse and touch nothing (D29, repaired in /repo)
+        if fin["files"] != ini["files"] or fin["dirs"] != ini["dirs"] or not orc.get("input_unchanged", True):
+            bad.append(({"kind": "input-clobbered", "output": "default-equals-input" if not case["output"] else "given"},
+                        f"the input {inp} was replaced by the archive (output path = input path)"))
+        elif not exc:
+            bad.append(({**sig0, "kind": "same-file-not-refused"}, "output = input, nothing written, yet no exception"))
+        if warns:
+            bad.append(({**sig0, "kind": "warning-on-failure"}, f"warning emitted although nothing was converted: {warns}"))
+        return bad
     if odir not in ini["dirs"]:
         if exc != "FileNotFoundError" or fin["files"] != ini["files"]:
             bad.append(({**sig0, "kind": "missing-dir"}, f"output directory missing: exception {exc}, files {fin['text']}"))
@@ -192,9 +203,8 @@ def run(R, only=None):
         for sig, what in oracle(case, res):
             R.violation(sig, f"skops {' '.join(res['argv'])}: {what}", {"mode": "convert", "case": case})
     R.notes["rule"] = ("every value x every output kind with seeded input name / verbosity / pre-existing output, plus every input "
-                       "name x verbosity 0..3 with the default output; one subprocess per case; the D27 witness is replayed every run")
-    R.notes["guards"] = ["C17_input_untouched_partial: out_path c <> in_path c",
-                         "C17_input_clobber_refuted: pickle named m.skops in the cwd, no -o (finding D27)"]
+                       "name x verbosity 0..3 with the default output; one subprocess per case; the former D29 witness (pickle named m.skops in the cwd, no -o) is replayed every run")
+    R.notes["guards"] = ["C17_completes / C17_equiv: same_file c = false (otherwise C17_same_file_refused: nothing happens at all)"]
     R.notes["not_modelled"] = ["input file missing / not a pickle", "get_untrusted_types raising", "crash atomicity of the output (not claimed)"]
     if (not ok) or bad or R.broken:
         R.notes["search"] = "property oracle on every generated case (destination by pathlib, load equality, warning iff untrusted, failure leaves files alone)"
